@@ -2,7 +2,7 @@
 script renderer, runner against the real crate (worker `store` mode with serve_all + tap) and
 the oracles that replay what every handler instance was handed on the Lean model
 (XsModel/Handler.lean `run`, `subscription`; XsModel/Registry.lean `announcements`)."""
-import json, os, random, shutil, subprocess, threading, hashlib, time
+import base64, json, os, random, shutil, subprocess, threading, hashlib, time
 
 from . import common as C
 from . import storelayer as S
@@ -42,9 +42,14 @@ def is_id_text(v):
 # ---------------------------------------------------------------------------------------------
 # behaviour tables -> nushell
 
+# what a script sees through the unqualified store commands (C06): only its own context
+NU_SCOPE_CAT = '$"cat:(.cat | get context_id | uniq | sort | str join ' + "','" + ')"'
+NU_SCOPE_HEAD = '$"head:(.head tick | default {context_id: ' + "'none'" + '} | get context_id)"'
+SCOPE_PROBES = [(NU_SCOPE_CAT, '"{scope:cat}"'), (NU_SCOPE_HEAD, '"{scope:head}"')]
+
 RETS = [  # (nu expression, JSON text the model expects as content; {n} = the call counter)
     ('"pong"', '"pong"'), ("$env.n", "{n}"), ('{a: 1, b: [1 2]}', '{"a":1,"b":[1,2]}'), ("[1 2 3]", "[1,2,3]"),
-    ("true", "true"), ("3.5", "3.5"), ('$"r($env.n)"', '"r{n}"'), (None, None), (None, None)]
+    ("true", "true"), ("3.5", "3.5"), ('$"r($env.n)"', '"r{n}"'), (None, None), (None, None)] + SCOPE_PROBES
 
 METAS = [  # (nu record, model pairs key -> JSON text)
     (None, None), (None, None), ('{k: "v"}', [["k", '"v"']]), ('{n: 1, s: "x y"}', [["n", "1"], ["s", '"x y"']]),
@@ -134,7 +139,7 @@ def render_handler(spec, ctx_text, id_text):
 
 
 CMD_VALUES = [  # (nu expression of one value, JSON text the model expects as content)
-    ('"a"', '"a"'), ("2", "2"), ('$"v($env.n)"', '"v{n}"'), ("{k: 1}", '{"k":1}'), ("true", "true")]
+    ('"a"', '"a"'), ("2", "2"), ('$"v($env.n)"', '"v{n}"'), ("{k: 1}", '{"k":1}'), ("true", "true")] + SCOPE_PROBES
 
 
 def render_command(spec, ctx_text):
@@ -293,6 +298,7 @@ class Gen:
             {"values_nu": [CMD_VALUES[0], CMD_VALUES[3], CMD_VALUES[4]], "appends": [], "fail": "mid", "fail_at": 1},
             {"values_nu": [CMD_VALUES[1]], "appends": [], "fail": "eager"},
             {"values_nu": [CMD_VALUES[2], CMD_VALUES[0]], "appends": [], "suffix": ".r", "ttl": "time:600000"},
+            {"values_nu": [CMD_VALUES[5], CMD_VALUES[6]], "appends": []},
         ]
         sp = json.loads(json.dumps(r.choice(pool)))
         if r.random() < 0.4:
@@ -619,7 +625,16 @@ def canon_out(f, known_ids):
         if k == "error":
             v = "<error>"
         meta[k] = v
-    return (f["topic"], f["ctx"], tuple(sorted(meta.items())), f.get("ttl") or "forever", f.get("content"))
+    content = f.get("content")
+    if isinstance(content, str):
+        own = hex_to_b36(f["ctx"])
+        if content == '"{scope:cat}"':                 # model side: `.cat` shows the script's own context only
+            content = json.dumps("cat:" + own)
+        elif content == '"{scope:head}"':              # model side: `.head` finds a frame of its own context or nothing
+            content = "<head:own-or-none>"
+        elif content in (json.dumps("head:" + own), '"head:none"'):
+            content = "<head:own-or-none>"
+    return (f["topic"], f["ctx"], tuple(sorted(meta.items())), f.get("ttl") or "forever", content)
 
 
 # ---------------------------------------------------------------------------------------------
@@ -717,6 +732,19 @@ def analyse(sc, res, drv):
             fnd.append({"kind": "tap", "props": [], "why": "tap history differs from the stored stream", "epoch": e})
         S_all = hist + live
         known_ids = {int(f["id"], 16) for f in S_all}
+        # --- C10: whatever wrote it (client, handler, command, generator), a frame's hash is the sha256 of its content
+        # and the content is there when a follower is handed the frame
+        for f in live:
+            if not f.get("hash"):
+                continue
+            if f.get("content_present") is False and f.get("ttl") != "ephemeral":
+                fnd.append({"kind": "cas", "props": ["C10"], "epoch": e, "frame": f["id"][-6:], "topic": unhx(f["topic"]),
+                            "why": "a follower was handed a frame whose content is not in the CAS"})
+            elif isinstance(f.get("content"), str):
+                want_h = "sha256-" + base64.b64encode(hashlib.sha256(f["content"].encode()).digest()).decode()
+                if f["hash"] != want_h:
+                    fnd.append({"kind": "hash", "props": ["C10"], "epoch": e, "frame": f["id"][-6:], "topic": unhx(f["topic"]),
+                                "why": "the frame's hash is not the sha256 of its content", "hash": f["hash"], "want": want_h})
         # --- C16 / C17: who is started, in which order, announced how
         tails = [rid for rid, (i, st) in reg_steps.items() if not st["spec"].get("invalid") and st["spec"].get("resume", "tail") == "tail"]
         ans = drv.ask({"q": "compact", "history": [sframe(f) for f in hist], "live": [sframe(f) for f in live],
